@@ -35,7 +35,7 @@ Fixpoint run_comp (c : cconf) (s : cstate) (es : list N) : list N :=
 Definition dec_qevent (n : N) : option qevent :=
   match n with
   | 1 => Some QStart | 2 => Some QPushFut | 3 => Some QPush | 4 => Some QItemSettle
-  | 5 => Some QFinish | 6 => Some QFail | 7 => Some QAbort | 8 => Some QTick
+  | 5 => Some QFinish | 6 => Some QFail | 7 => Some QAbort | 8 => Some QTick | 9 => Some QFailCancelled
   | _ => None
   end.
 
@@ -53,6 +53,18 @@ Fixpoint run_queue (c : qconf) (s : qstate) (es : list N) : list N :=
       | Some e =>
           let '(s', ret) := qstep c s e in
           bn (applicable s e) :: bn ret :: enc_q s' ++ run_queue c s' r
+      end
+  end.
+
+(* ---- 6: acceptance of a recorded queue trace (the loop may have settled before any event):
+   number of possible states after every event, then the settled final states *)
+Fixpoint run_queue_nd (c : qconf) (ss : list qstate) (es : list N) : list N :=
+  match es with
+  | [] => flat_map (fun s => let s' := settle c s in bn (quiescent s') :: enc_q s') ss
+  | n :: r =>
+      match dec_qevent n with
+      | None => [999999]
+      | Some e => let ss' := qnext c ss e in of_nat (length ss') :: run_queue_nd c ss' r
       end
   end.
 
@@ -114,6 +126,9 @@ Definition run (inp : list N) : list N :=
   | 2 :: eager :: hascb :: cbasync :: es =>
       let c := {| q_eager := nb eager; q_has_cb := nb hascb; q_cb_async := nb cbasync |} in
       run_queue c (qinit c) es
+  | 6 :: eager :: hascb :: cbasync :: es =>
+      let c := {| q_eager := nb eager; q_has_cb := nb hascb; q_cb_async := nb cbasync |} in
+      run_queue_nd c [qinit c] es
   | 3 :: es => haccept hinit 0 es
   | 4 :: es => run_aclosing ainit es
   | 5 :: hascb :: n :: rest => run_cancel hascb n rest
